@@ -3,6 +3,7 @@
 import TaRs.Lemmas.Core.BollingerBands
 import TaRs.Gen.BollingerBands
 import TaRs.Lemmas.StandardDeviation
+import TaRs.Lemmas.Total.BollingerBands
 namespace TaRs.Gen.BollingerBands
 open TaRs TaRs.Rs
 variable {F : Type} [Scalar F]
@@ -25,15 +26,5 @@ theorem next_none_sd (s : BollingerBands F) (x : F) (h : s.sd.next x = none) : s
   unfold next
   try simp only [gen_helper]
   simp [h]
-
-theorem next_total (s : BollingerBands F) (x : F) (h : WF s) :
-    ∃ r, s.next x = some r ∧ WF r.1 ∧ r.1.period = s.period ∧ r.1.multiplier = s.multiplier := by
-  obtain ⟨⟨sd', v⟩, hr, hw, hp⟩ := StandardDeviation.next_total s.sd x h.sd
-  exact ⟨_, next_eq_sd s x sd' v hr, ⟨hw, hp.trans h.per⟩, rfl, rfl⟩
-
-theorem nextBar_eq (s : BollingerBands F) (b : Bar F) : s.nextBar b = s.next b.close := by
-  unfold nextBar
-  try simp only [gen_helper]
-  cases h : s.next b.close <;> simp [h]
 
 end TaRs.Gen.BollingerBands
